@@ -83,7 +83,10 @@ public:
 
 	template<typename... Args>
 	value_type &emplace_back(Args&&... args) {
-		_ensure_capacity(_size + 1);
+		// As in push_back(): the arguments may refer to our own elements.
+		if(_size == _capacity)
+			return push_back(T(std::forward<Args>(args)...));
+
 		auto container = _get_container();
 		T *pointer = new (&container[_size]) T(std::forward<Args>(args)...);
 		_size++;
